@@ -280,8 +280,10 @@ def run_case(case):
     gran = case.get('gran', 'line')
     n = len(specs)
     alone = [served_alone(sp, cfg, gran) for sp in specs]
+    saved_tpl = None
     if case.get('cold'):
         from ombott import error_render
+        saved_tpl = list(error_render._html_lns)
         del error_render._html_lns[:]
     app = new_app(cfg)
     outs = [Outcome() for _ in range(n)]
@@ -303,6 +305,9 @@ def run_case(case):
                 inflight.discard(i)
         return fn
     s.run([make(i) for i in range(n)])
+    if saved_tpl is not None:
+        # back to the warm steady state, whether or not this run rendered an error page
+        error_render._html_lns[:] = saved_tpl
     log('plan', case['plan']['mode'], 'executed', s.executed)
     for i in range(n):
         sp = specs[i]
